@@ -1119,6 +1119,9 @@ fn feature_table(recvs: &[Recv]) -> Value {
                         if v.skip {
                             bump("variant.skip");
                         }
+                        if v.word_false {
+                            bump("variant.word=false");
+                        }
                         if v.word {
                             bump("variant.word");
                         }
